@@ -1,5 +1,6 @@
 INIT IndInit
 NEXT Next
 CONSTANT MaxRem = 0
+CONSTANT FieldMax = 65535
 CONSTANT LOff = {}
 INVARIANT IndInv
